@@ -104,6 +104,19 @@ func (c05) Gen(rng *rand.Rand, tier string, idx int) Case {
 		}
 		op := append([]string{"path"}, c05CompTokens(comps)...)
 		c.Ops = append(c.Ops, c05EncValue(data, op))
+		if i%2 == 1 {
+			// the same lookup on the same value held in typed Go containers (map[string]int, []string, pointers to containers, …)
+			c.Ops = append(c.Ops, c05EncValue(data, append([]string{"tpath"}, c05CompTokens(comps)...)))
+			// … and lookups in a value whose containers are mostly of one element kind
+			hd := map[string]interface{}{}
+			for _, col := range c05TopCols {
+				hd[col] = c05GenHomog(rng, 2)
+			}
+			for j := 0; j < 3; j++ {
+				c.Ops = append(c.Ops, c05EncValue(hd, append([]string{"tpath"}, c05CompTokens(c05GenPath(rng, hd, true))...)))
+			}
+			c.Stat = append(c.Stat, "path-typed-containers")
+		}
 	}
 	for i := 0; i < 2; i++ {
 		raw := c05RawPaths[rng.Intn(len(c05RawPaths))]
@@ -129,6 +142,19 @@ func c05PathRes(data interface{}, path string) (res []string) {
 		return []string{"missing"}
 	}
 	return c05EncValue(v, []string{"found"})
+}
+
+func c05PathResTyped(data interface{}, path string) (res []string) {
+	defer func() {
+		if r := recover(); r != nil {
+			res = []string{"panic"}
+		}
+	}()
+	v, ok := fieldpath.GetNestedField(data, path)
+	if !ok {
+		return []string{"missing"}
+	}
+	return c05EncValue(c05Untypify(v), []string{"found"})
 }
 
 func c05SyncRes(s *streamsql.Streamsql, row map[string]interface{}) (res []string) {
@@ -339,6 +365,10 @@ func (c05) Exec(c Case) [][][]string {
 			comps, rest := c05ParseCompTokens(op[1:])
 			data, _ := c05DecValue(rest)
 			out = append(out, [][]string{c05PathRes(data, c05PItem{kind: "path", comps: comps}.srcSQL())})
+		case "tpath":
+			comps, rest := c05ParseCompTokens(op[1:])
+			data, _ := c05DecValue(rest)
+			out = append(out, [][]string{c05PathResTyped(c05Typify(data), c05PItem{kind: "path", comps: comps}.srcSQL())})
 		case "rawpath":
 			data, _ := c05DecValue(op[2:])
 			out = append(out, [][]string{c05PathRes(data, unhx(op[1]))})
